@@ -30,7 +30,8 @@ const OPS: [Op; 6] = [Op::Commit, Op::Branch, Op::DelBranch, Op::Rewind, Op::Tag
 
 #[derive(Serialize, Deserialize, Hash, Clone, Debug)]
 struct Case {
-    /// 0: a = one commit. 1: a = two commits, b = side commit, annotated tag `ann` on the root, lightweight tag `lw` on a's tip
+    /// 0: a = one commit. 1: a = two commits, b = side commit, annotated tag `ann` on the root, lightweight tag `lw` on a's tip.
+    /// 2 / 3: the server is itself a shallow (depth 1 / depth 2) bare clone of a 4-commit history with side branch and tags
     base: u8,
     /// client configuration, index into `CLIENTS`
     client: u8,
@@ -141,6 +142,29 @@ fn fixture() -> Fixture {
         }
         bases.push((dir, m));
     }
+    // bases 2 and 3: the server itself is shallow (bare --depth=1 / --depth=2 clones of a longer history:
+    // a = 4 commits, b = side commit on the 2nd, annotated tag on the 3rd, lightweight tag on the tip)
+    let long = scratch::Dir::new("c31long").keep();
+    git::init_bare(&long);
+    util::write(&long.join("HEAD"), b"ref: refs/heads/a\n");
+    fast_import(&long, &commit_stream("a", None, "f0", 1_000_000_000));
+    fast_import(&long, &commit_stream("a", Some("refs/heads/a^0"), "f01", 1_000_000_100));
+    fast_import(&long, &commit_stream("b", Some("refs/heads/a^0"), "b0", 1_000_000_150));
+    fast_import(&long, &commit_stream("a", Some("refs/heads/a^0"), "f02", 1_000_000_200));
+    fast_import(&long, &format!("tag ann\nfrom refs/heads/a^0\ntagger {IDENT} 1000000250 +0000\n{}", data("tag base")));
+    fast_import(&long, &commit_stream("a", Some("refs/heads/a^0"), "f03", 1_000_000_300));
+    fast_import(&long, "reset refs/tags/lw\nfrom refs/heads/a^0\n\n");
+    for depth in [1u32, 2] {
+        let dir = scratch::Dir::new("c31shallow").keep();
+        git::git(
+            scratch::base(),
+            &["clone", "-q", "--bare", &format!("--depth={depth}"), "--no-single-branch", &format!("file://{}", long.display()), &dir.display().to_string()],
+        );
+        if std::fs::read_to_string(dir.join("shallow")).unwrap_or_default().is_empty() {
+            vkit::machinery!("shallow server fixture is not shallow");
+        }
+        bases.push((dir, Model { a_depth: depth, b_exists: true, n: 0 }));
+    }
     let client = scratch::Dir::new("c31client").keep();
     git::init_bare(&client);
     Fixture { bases, client }
@@ -220,6 +244,10 @@ fn fetch_and_compare(cx: &mut Ctx<'_>, server: &Path, g: &Path, h: &Path, path: 
     let mut args = vec!["-c".to_string(), format!("protocol.version={}", c.proto), "fetch".into(), "-q".into(), "o".into()];
     if cx.client.shallow {
         args.push("--depth=1".into());
+    }
+    if c.base >= 2 {
+        // plain `git fetch` refuses refs of a shallow server unless told to update .git/shallow (git clone accepts them); gitoxide always accepts
+        args.push("--update-shallow".into());
     }
     let o = git::try_git(h, &args);
     if !o.ok && o.code != Some(1) {
@@ -312,7 +340,13 @@ fn fetch_and_compare(cx: &mut Ctx<'_>, server: &Path, g: &Path, h: &Path, path: 
             here()
         ));
     }
-    if cx.client.shallow && shallow_of(g) != shallow_of(h) {
+    // entries gitoxide keeps for commits that are not in the repository (v0/v1: every `shallow` line of the advertisement is recorded, git drops
+    // those it did not receive) do not affect connectivity and are not demanded equal
+    let mut shallow_g = shallow_of(g);
+    if shallow_g != shallow_of(h) {
+        shallow_g.retain(|id| git::try_git(g, &["cat-file", "-e", id]).ok);
+    }
+    if shallow_g != shallow_of(h) {
         return Err(format!("shallow: shallow file {:?} but git has {:?} {}", shallow_of(g), shallow_of(h), here()));
     }
     // bookkeeping for evidence
@@ -396,14 +430,16 @@ fn explore(cx: &mut Ctx<'_>, server: &Path, g: &Path, h: &Path, m: Model, path: 
 pub fn run(run: &'static Run) {
     util::hermetic_env();
     run.rule(
-        "server histories: from base 0 (a = 1 commit) or base 1 (a = 2 commits, b = side commit, annotated tag on the root, lightweight tag on the tip) every sequence of \
+        "server histories: from base 0 (a = 1 commit), base 1 (a = 2 commits, b = side commit, annotated tag on the root, lightweight tag on the tip) every sequence of \
          {Commit on a, Branch (create/advance b with an old-dated commit), DelBranch b, Rewind a (forced replacement of the tip / new root), TagLw (move lightweight tag), TagAnn (re-create annotated tag)} \
-         up to depth 2 (quick: base 1 at depth 1 for (follow-tags, v2) and (unforced+all-tags, v1), initial fetch only for (depth-1 shallow, v2) and (single-branch, v1); thorough: base 1 at depth 2 for all 4 clients x protocol 1 and 2, base 0 at depth 2 for all 4 clients with alternating protocol); after the initial state and after EVERY operation the client fetches. Clients: `+refs/heads/*:refs/remotes/o/*` with tag following; `refs/heads/*:refs/remotes/o/*` (no force) with --tags; \
+         up to depth 2 (quick: base 1 at depth 1 for (follow-tags, v2) and (unforced+all-tags, v1), initial fetch only for (depth-1 shallow, v2) and (single-branch, v1); thorough: base 1 at depth 2 for all 4 clients x protocol 1 and 2, base 0 at depth 2 for all 4 clients with alternating protocol); shallow servers (bases 2/3 = bare --depth=1/--depth=2 clones of a 4-commit history) with the three clients that request no depth: quick initial fetch for 4 (base, client, protocol) combinations, thorough depth 1 for 2 bases x 3 clients x protocol 1 and 2; after the initial state and after EVERY operation the client fetches. Clients: `+refs/heads/*:refs/remotes/o/*` with tag following; `refs/heads/*:refs/remotes/o/*` (no force) with --tags; \
          single branch `+refs/heads/a:..` with --no-tags; all heads --no-tags with depth 1; protocol.version 1 and 2. \
          a case = (base, client, protocol, first operation) and covers the whole subtree of continuations; non-trivial = every fetch in the subtree was compared with git fetch and at least one pack was received",
     );
     run.assume("git 2.39.5 `git fetch` (same config file, same protocol.version) on an identical copy of the client is the reference for refs and the shallow file; `git fsck --connectivity-only` decides completeness");
     run.assume("documented deviation tolerated: with tag following, gitoxide does not request annotated tags of commits it already has (Mode::ImplicitTagNotSentByRemote) — only when that mode is reported and the tag object is indeed absent");
+    run.assume("shallow servers: the reference is `git fetch --update-shallow` (plain git fetch refuses refs that need a shallow update; gitoxide, like git clone, accepts them)");
+    run.assume("the shallow file is compared after dropping entries of gitoxide for commits that do not exist in the client (extra v0/v1 advertisement entries); entries of existing commits must equal those of git");
     run.assume("pruning, FETCH_HEAD, reflogs and refs/remotes/o/HEAD are outside the comparison (git fetch without --prune does not delete refs either)");
     run.budget_secs(run.pick(40.0, 570.0));
     let fx = fixture();
@@ -426,12 +462,23 @@ pub fn run(run: &'static Run) {
                 for (client, proto, depth) in [(0u8, 2u8, 1u8), (1, 1, 1), (3, 2, 0), (2, 1, 0)] {
                     subtree(1, client, proto, depth);
                 }
+                // shallow servers, clients that request no depth
+                for (base, client, proto) in [(2u8, 0u8, 1u8), (2, 0, 2), (3, 1, 1), (3, 2, 2)] {
+                    subtree(base, client, proto, 0);
+                }
             } else {
                 for (client, proto) in [(0u8, 2u8), (1, 1), (3, 2), (2, 1), (0, 1), (1, 2), (3, 1), (2, 2)] {
                     subtree(1, client, proto, 2);
                 }
                 for client in 0..CLIENTS.len() as u8 {
                     subtree(0, client, 2 - client % 2, 2);
+                }
+                for base in [2u8, 3] {
+                    for client in 0..3u8 {
+                        for proto in [1u8, 2] {
+                            subtree(base, client, proto, 1);
+                        }
+                    }
                 }
             }
         },
